@@ -5,6 +5,7 @@ import AcraModel.Wire.ByteaLemmas
 import AcraModel.Wire.PgExtLemmas
 import AcraModel.Wire.PgDescribeLemmas
 import AcraModel.Wire.MysqlColDefLemmas
+import AcraModel.Wire.MysqlExecuteLemmas
 /-!
 # C12 — relayed messages stay byte-identical; rewritten ones stay well-formed
 
@@ -456,6 +457,114 @@ parses, and after re-typing `Dump` rebuilds it two bytes shorter behind the unch
 theorem coldef_stale_header_counterexample :
     ∃ f, parseResultField ⟨[28, 0, 0, 1], [3, 100, 101, 102, 0xfc, 0, 0, 1, 116, 1, 116, 1, 99, 1, 99, 0x0c, 63, 0, 9, 0, 0, 0, 0xfc, 0, 0, 0, 0, 0]⟩ false = .ok f ∧
       payloadLength (retype f (some 3)).header = 28 ∧ (retype f (some 3)).dump.length = 4 + 26 := ⟨_, by rfl, by rfl, by rfl⟩
+
+/-! ## part 6 — MySQL COM_STMT_EXECUTE parameters -/
+
+open AcraModel.Wire.My in
+/-- Facts from the regenerated sources the COM_STMT_EXECUTE model relies on: the parameter block starts at offset 10,
+`GetBindParameters` has its two bounds checks (`fix:` 11), a changed value becomes a BLOB (252), the unsigned flag is
+recomputed for LONG and LONGLONG only, and the three tables of numeric types agree (the Go type a value is read into,
+the bit size it is parsed back with, and `NumericTypesStorageBytes`). -/
+theorem fact_execute_tables :
+    hdrLen = 10 ∧ Generated.Wire.myExecuteGuards = 2 ∧ changedType = 252 ∧ Generated.Wire.mySignFlagTypes = [3, 8] ∧
+    Generated.Wire.myUnsignedBinaryValue = 128 ∧ Generated.Wire.mySignedBinaryValue = 0 ∧
+    Generated.Wire.myBoundDecode = [(1, "int8"), (2, "int16"), (3, "int32"), (4, "float32"), (5, "float64"), (6, "null"),
+      (8, "int64"), (9, "int32"), (13, "int16")] ∧
+    Generated.Wire.myBoundEncode = [(1, "int", 8), (2, "int", 16), (3, "int", 32), (4, "float", 32), (5, "float", 64), (6, "null", 0),
+      (8, "int", 64), (9, "int", 32), (13, "int", 16)] ∧
+    (∀ t sb, storageBytes t = some sb →
+      (decodeKind t = some (.int sb) ∧ encodeKind t = some (.int sb)) ∨
+      (decodeKind t = some (.float sb) ∧ encodeKind t = some (.float sb)) ∨
+      (decodeKind t = some .null ∧ encodeKind t = some .null ∧ sb = 0)) :=
+  ⟨rfl, rfl, rfl, rfl, rfl, rfl, by decide, by decide, tables_agree⟩
+
+open AcraModel.Wire.My in
+/-- **Integer text round trip.** `strconv.ParseInt(strconv.FormatInt(i, 10), 10, bits) = i` for every `i` of the signed
+`bits`-bit range, and writing back the integer read from `w` little-endian bytes gives those bytes: an integer
+parameter Acra only looks at (as decimal text) comes back bit-identical. -/
+theorem execute_int_text_roundtrip :
+    (∀ (bits : Nat) (i : Int), -((2^(bits-1) : Nat) : Int) ≤ i → i < ((2^(bits-1) : Nat) : Int) → parseInt bits (fmtInt i) = some i) ∧
+    (∀ (w : Nat) (b : Bytes), b.length = w → intBytes w (toSigned (8*w) (leVal b)) = b) :=
+  ⟨parseInt_fmtInt, intBytes_toSigned⟩
+
+open AcraModel.Wire.My in
+/-- **One parameter through `NewMysqlBoundValue → SetData → Encode`.** (i) a fixed-width integer parameter (TINY, SHORT,
+YEAR, LONG, INT24, LONGLONG) that is not changed is consumed with its storage width and re-encoded to exactly its
+bytes; (ii) the same for FLOAT/DOUBLE whenever strconv's shortest-text round trip holds for the value (hypothesis
+`fo.parse w (fo.fmt w raw) = some raw`: all finite values and infinities; NaN payloads are canonicalised – excluded);
+(iii) a string-like parameter is consumed with exactly its length-encoded size, re-encoded identically when
+unchanged, and – the rule of the code – travels as a BLOB (type 252) holding the length-encoded new value when changed. -/
+theorem rewrite_wellformed_mysql_execute_value (fo : FloatOps) :
+    (∀ t w raw rest, storageBytes t = some w → decodeKind t = some (.int w) → encodeKind t = some (.int w) → 0 < w →
+      raw.length = w →
+      ∃ v, newBoundValue fo (raw ++ rest) t = .ok (v, w) ∧ v.paramType = t ∧ (v.setData (v.data.getD [])) = v ∧ v.encode fo = .ok raw) ∧
+    (∀ t w raw rest, storageBytes t = some w → decodeKind t = some (.float w) → encodeKind t = some (.float w) →
+      raw.length = w → fo.parse w (fo.fmt w raw) = some raw →
+      ∃ v, newBoundValue fo (raw ++ rest) t = .ok (v, w) ∧ v.paramType = t ∧ v.encode fo = .ok raw) ∧
+    (∀ t b b' rest, storageBytes t = none → b.length < 2^64 →
+      newBoundValue fo (putLengthEncodedString (some b) ++ rest) t = .ok (⟨t, some b⟩, (putLengthEncodedString (some b)).length) ∧
+      ((⟨t, some b⟩ : BoundValue).setData b).encode fo = .ok (putLengthEncodedString (some b)) ∧
+      (b' ≠ b → ((⟨t, some b⟩ : BoundValue).setData b').paramType = changedType ∧
+        ((⟨t, some b⟩ : BoundValue).setData b').encode fo = .ok (putLengthEncodedString (some b')))) := by
+  refine ⟨?_, ?_, ?_⟩
+  · intro t w raw rest hs hd he hw hr
+    obtain ⟨h1, h2⟩ := value_roundtrip_int fo t w raw rest hs hd he hw hr
+    exact ⟨_, h1, rfl, by simp [BoundValue.setData], h2⟩
+  · intro t w raw rest hs hd he hr hlaw
+    obtain ⟨h1, h2⟩ := value_roundtrip_float fo t w raw rest hs hd he hr hlaw
+    exact ⟨_, h1, rfl, h2⟩
+  · intro t b b' rest hs hb
+    obtain ⟨h1, _, h3, h4⟩ := value_roundtrip_str fo t b b' rest hs hb
+    exact ⟨h1, h3, h4⟩
+
+open AcraModel.Wire.My in
+/-- **Rewritten COM_STMT_EXECUTE stays well-formed – partial (frame).** When `SetParameters` succeeds the new payload
+begins with the first `10 + (n+7)/8 + 1` bytes of the received one (command, statement id, flags, iteration count, NULL
+bitmap – so the NULL markers – and the new-params-bound flag are byte-identical), followed by exactly two bytes per
+parameter (same parameter count) and the encodings of the non-NULL values; the header gets the new payload length
+and keeps the sequence id.
+
+Missing for the full statement (`rewriteExecute` of a specification-encoded packet = the specification encoding of
+the transformed parameter list): the induction that assembles `rewrite_wellformed_mysql_execute_value` over the
+value loop with the NULL bitmap; it is covered by correspondence (`C12.my.execute`, `C12.my.execute.params`) and the
+direct oracle. The full statement is moreover FALSE for the unsigned flag of LONG/LONGLONG parameters – see
+`execute_sign_flag_counterexample` (known finding `my-execute-sign-flag`). -/
+theorem rewrite_wellformed_mysql_execute_partial (fo : FloatOps) (p p' : Packet) (vs : List BoundValue) (hne : vs ≠ [])
+    (h : setParameters fo p vs = .ok p') :
+    ∃ types vals, p'.data = p.data.take (hdrLen + ((vs.length + 7) >>> 3) + 1) ++ types ++ vals ∧
+      hdrLen + ((vs.length + 7) >>> 3) + 1 ≤ p.data.length ∧ types.length = 2 * vs.length ∧
+      encodeVals fo vs = .ok vals ∧ p'.header = updatePacketSize p.header p'.data.length := by
+  obtain ⟨types, vals, h1, h2, h3, h4, h5⟩ := setParameters_frame fo p p' vs hne h
+  exact ⟨types, vals, h3, h4, setTypes_length _ _ _ _ h1, h2, h5⟩
+
+open AcraModel.Wire.My in
+/-- **Counterexample (known finding `my-execute-sign-flag`).** "Fields that were not transformed keep their exact
+bytes" fails for the unsigned flag: in an execute whose second (string) parameter is changed, the untouched first
+parameter – LONG, flagged unsigned (0x80), bytes ff ff ff ff = 4294967295 – is sent on with the flag 0x00 (signed):
+the database receives -1. First conjunct: the value is read as the text "-1"; second: `SetParameters` on the values
+after the observer changed parameter 1 (for every float codec: no float parameter is involved). -/
+theorem execute_sign_flag_counterexample (fo : FloatOps) :
+    newBoundValue fo [0xff, 0xff, 0xff, 0xff, 1, 65] 3 = .ok (⟨3, some [45, 49]⟩, 4) ∧
+    setParameters fo ⟨[23, 0, 0, 5], [0x17, 1, 0, 0, 0, 0, 1, 0, 0, 0, 0, 1, 3, 0x80, 0xfd, 0, 0xff, 0xff, 0xff, 0xff, 1, 65]⟩
+        [⟨3, some [45, 49]⟩, (⟨0xfd, some [65]⟩ : BoundValue).setData [90]]
+      = .ok ⟨[22, 0, 0, 5], [0x17, 1, 0, 0, 0, 0, 1, 0, 0, 0, 0, 1, 3, 0x00, 0xfc, 0, 0xff, 0xff, 0xff, 0xff, 1, 90]⟩ := by
+  constructor
+  · have h := (value_roundtrip_int fo 3 4 [0xff, 0xff, 0xff, 0xff] [1, 65] (by decide) (by decide) (by decide) (by decide) rfl).1
+    have ht : toSigned (8 * 4) (leVal [0xff, 0xff, 0xff, 0xff]) = -1 := by decide
+    have hf : fmtInt (-1) = [45, 49] := by
+      unfold fmtInt
+      rw [if_pos (by decide), natDec]
+      rfl
+    rw [ht, hf] at h
+    exact h
+  · rfl
+
+open AcraModel.Wire.My in
+/-- **COM_STMT_EXECUTE handling never panics**: `GetBindParameters` on any packet with any parameter count, and the whole
+`GetBindParameters → OnBind → SetParameters` rewrite with any (non-panicking) observer. (True since `fix:` 11.) -/
+theorem mysql_execute_no_panic (fo : FloatOps) (g : Nat → Bytes → Out Bytes) (hg : ∀ i d, g i d ≠ .panic) (p : Packet) (n : Nat) :
+    getBindParameters fo p.data n ≠ .panic ∧ rewriteExecute fo g p n ≠ .panic :=
+  ⟨getBindParameters_no_panic fo p.data n, rewriteExecute_no_panic fo g hg p n⟩
 
 /-! ## part 7 — PostgreSQL RowDescription / ParameterDescription -/
 
